@@ -329,7 +329,7 @@ func RunCheck(t *testing.T, chk Check) int {
 		inconclusive = true
 	}
 	// evidence
-	if *FlagCase == "" {
+	if *FlagCase == "" && os.Getenv("VERIF_NOEVIDENCE") == "" {
 		cov := map[string]any{
 			"evaluations":         res.cases,
 			"distinct_nontrivial": nontriv,
